@@ -1,4 +1,14 @@
 // C15: run one named parser at a cursor; on success re-run it on the reported span alone.
+//
+// case: `<frame><parser> <hexbuf> <pos>`
+//   frame ""                         the parser runs on ParseBuffer::new(buf)
+//   frame "@"                        on a restricted view whose window is exactly `buf` inside a larger
+//                                    allocation with fixed surroundings
+//   frame "v<a>-<b>[,<a2>-<b2>..]@"  CUT WINDOW: `buf` is the whole underlying storage, the parser runs
+//                                    on RestrictView(a, b-a) of it (then on RestrictView(a2, b2-a2) of that
+//                                    view, ...); `pos` is relative to the innermost window, whose bytes
+//                                    are all the specification sees.  The re-parse runs on the view of the
+//                                    SAME storage restricted to the reported span.
 use parsley_rust::pcore::parsebuffer::{LocatedVal, ParseBuffer, ParseBufferT, ParseResult, ParsleyParser};
 use parsley_rust::pcore::prim_ascii::AsciiChar;
 use parsley_rust::pcore::prim_binary::*;
@@ -37,6 +47,9 @@ trait Rel {
 }
 impl Rel for char {
     fn rel(&self, _: usize) -> String { (*self as u32).to_string() }
+}
+impl Rel for bool {
+    fn rel(&self, _: usize) -> String { self.to_string() }
 }
 impl Rel for u8 {
     fn rel(&self, _: usize) -> String { self.to_string() }
@@ -196,6 +209,42 @@ fn run_cmb(name: &str, pb: &mut ParseBuffer) -> Option<Out> {
             let mut anb = Sequence::new(&mut a, &mut nb);
             conv_rel(Alternate::new(&mut anb, &mut a2).parse(pb), pb)
         },
+        // composites over the tag matcher and the keyword parsers (all built on ParseBuffer::exact)
+        "altMabMba" => {
+            let mut ab = BinaryMatcher::new(b"AB");
+            let mut ba = BinaryMatcher::new(b"BA");
+            conv_rel(Alternate::new(&mut ab, &mut ba).parse(pb), pb)
+        },
+        "seqMabMba" => {
+            let mut ab = BinaryMatcher::new(b"AB");
+            let mut ba = BinaryMatcher::new(b"BA");
+            conv_rel(Sequence::new(&mut ab, &mut ba).parse(pb), pb)
+        },
+        "notMab" => {
+            let mut ab = BinaryMatcher::new(b"AB");
+            conv_rel(Not::new(&mut ab).parse(pb), pb)
+        },
+        "starMab" => {
+            let mut ab = BinaryMatcher::new(b"AB");
+            conv_rel(Star::new(&mut ab).parse(pb), pb)
+        },
+        "altBoolNull" => {
+            let (mut t, mut n) = (Boolean, Null);
+            conv_rel(Alternate::new(&mut t, &mut n).parse(pb), pb)
+        },
+        "seqBoolNull" => {
+            let (mut t, mut n) = (Boolean, Null);
+            conv_rel(Sequence::new(&mut t, &mut n).parse(pb), pb)
+        },
+        "notBool" => {
+            let mut t = Boolean;
+            conv_rel(Not::new(&mut t).parse(pb), pb)
+        },
+        "starAltBoolNull" => {
+            let (mut t, mut n) = (Boolean, Null);
+            let mut tn = Alternate::new(&mut t, &mut n);
+            conv_rel(Star::new(&mut tn).parse(pb), pb)
+        },
         _ => return None,
     };
     Some(o)
@@ -203,19 +252,69 @@ fn run_cmb(name: &str, pb: &mut ParseBuffer) -> Option<Out> {
 
 fn endian(p: &str) -> Endian { if p.ends_with("le") { Endian::Little } else { Endian::Big } }
 
-fn run_parser(p: &str, buf: &[u8], pos: usize) -> Option<Out> {
-    // parser names prefixed with '@' run on a RESTRICTED VIEW whose window is exactly `buf` inside a
-    // larger allocation (by C17 a view behaves like a copy of its window: same expected output)
-    let (p, mut pb) = if let Some(rest) = p.strip_prefix('@') {
-        let mut big = vec![0x28u8, 0x25, 0x3c, 0x31];
-        big.extend_from_slice(buf);
-        big.extend_from_slice(&[0x39, 0x29, 0x3e]);
-        let parent = ParseBuffer::new(big);
-        let view = RestrictView::new(4, buf.len()).transform(&parent).ok()?;
-        (rest, view)
-    } else {
-        (p, ParseBuffer::new(buf.to_vec()))
-    };
+// where the parser runs
+enum Frame {
+    Whole,                     // ParseBuffer::new(bytes)
+    Framed,                    // fixed surroundings, window = bytes
+    Win(Vec<(usize, usize)>),  // nested windows (start, end) of the storage `bytes`, each relative to the previous
+}
+
+// `<frame><parser>` -> (frame, bare parser name)
+fn split_frame(p: &str) -> Option<(Frame, &str)> {
+    match p.find('@') {
+        None => Some((Frame::Whole, p)),
+        Some(0) => Some((Frame::Framed, &p[1 ..])),
+        Some(k) => {
+            let spec = p[.. k].strip_prefix('v')?;
+            let mut ws = Vec::new();
+            for w in spec.split(',') {
+                let (a, b) = w.split_once('-')?;
+                ws.push((a.parse().ok()?, b.parse().ok()?));
+            }
+            Some((Frame::Win(ws), &p[k + 1 ..]))
+        },
+    }
+}
+
+// absolute (start, end) of the innermost window in the storage; None = not a chain of windows
+fn innermost(ws: &[(usize, usize)], size: usize) -> Option<(usize, usize)> {
+    let (mut lo, mut hi) = (0, size);
+    for &(a, b) in ws {
+        if !(a <= b && b <= hi - lo) {
+            return None
+        }
+        hi = lo + b;
+        lo += a;
+    }
+    Some((lo, hi))
+}
+
+fn make_buffer(frame: &Frame, buf: &[u8]) -> Option<ParseBuffer> {
+    match frame {
+        Frame::Whole => Some(ParseBuffer::new(buf.to_vec())),
+        // a RESTRICTED VIEW whose window is exactly `buf` inside a larger allocation (by C17 a view
+        // behaves like a copy of its window: same expected output)
+        Frame::Framed => {
+            let mut big = vec![0x28u8, 0x25, 0x3c, 0x31];
+            big.extend_from_slice(buf);
+            big.extend_from_slice(&[0x39, 0x29, 0x3e]);
+            let parent = ParseBuffer::new(big);
+            RestrictView::new(4, buf.len()).transform(&parent).ok()
+        },
+        // views of views of the storage, built the way the crate builds them
+        Frame::Win(ws) => {
+            innermost(ws, buf.len())?;
+            let mut pb = ParseBuffer::new(buf.to_vec());
+            for &(a, b) in ws {
+                pb = RestrictView::new(a, b - a).transform(&pb).ok()?;
+            }
+            Some(pb)
+        },
+    }
+}
+
+fn run_parser(p: &str, frame: &Frame, buf: &[u8], pos: usize) -> Option<Out> {
+    let mut pb = make_buffer(frame, buf)?;
     if pb.set_cursor(pos).is_err() {
         return None
     }
@@ -283,7 +382,7 @@ fn show(p: &str, o: &Out) -> String {
     match (&o.ok, o.err) {
         (Some((s, e, v)), _) => format!("ok {} {} {} {}", s, e, o.cursor, v),
         (None, Some(k)) => {
-            if p.trim_start_matches('@').starts_with("obj:") {
+            if p.starts_with("obj:") {
                 format!("err {}", k)
             } else {
                 format!("err {} {}", k, o.cursor)
@@ -303,17 +402,38 @@ fn run(line: &str) -> String {
         Ok(p) => p,
         Err(_) => return "bad-case".to_string(),
     };
-    let o = match run_parser(w[0], &buf, pos) {
+    let (frame, p) = match split_frame(w[0]) {
+        Some(x) => x,
+        None => return "bad-case".to_string(),
+    };
+    // the bytes the specification sees, as (lo, hi) in `buf`
+    let (lo, hi) = match &frame {
+        Frame::Win(ws) => match innermost(ws, buf.len()) {
+            Some(x) => x,
+            None => return "bad-case".to_string(),
+        },
+        _ => (0, buf.len()),
+    };
+    let o = match run_parser(p, &frame, &buf, pos) {
         Some(o) => o,
         None => return "bad-case".to_string(),
     };
-    let first = show(w[0], &o);
+    let first = show(p, &o);
     if let Some((s, e, _)) = &o.ok {
-        if *s <= *e && *e <= buf.len() {
-            let span = &buf[*s .. *e];
-            let re = std::panic::catch_unwind(|| run_parser(w[0], span, 0));
+        if *s <= *e && *e <= hi - lo {
+            let re = match &frame {
+                // cut window: the span as a view of the same storage (what follows it stays behind the view)
+                Frame::Win(_) => {
+                    let f = Frame::Win(vec![(lo + *s, lo + *e)]);
+                    std::panic::catch_unwind(|| run_parser(p, &f, &buf, 0))
+                },
+                _ => {
+                    let span = &buf[*s .. *e];
+                    std::panic::catch_unwind(|| run_parser(p, &frame, span, 0))
+                },
+            };
             let re = match re {
-                Ok(Some(o2)) => show(w[0], &o2),
+                Ok(Some(o2)) => show(p, &o2),
                 Ok(None) => return "bad-case".to_string(),
                 Err(_) => "panic reparse".to_string(),
             };
